@@ -55,7 +55,7 @@ def make_header(rng, supported, synonyms):
 
 class C18(SimpleProperty):
     id = "C18"
-    theorems = ["C18_answers", "C18_answers_expand_all", "C18_unconfigured", "C18_header_supported", "C18_header_absent", "C18_header_max"]
+    theorems = ["C18_answers", "C18_answers_expand_all", "C18_unconfigured", "C18_header_supported", "C18_header_absent", "C18_header_max", "C18_header_text"]
     lean_modules = ["CuriesVerif.Properties.C18"]
     rule = ("one case = one strict converter (default delimiter) with overlapping valid-IRI URI prefixes and synonyms, "
             "3 URIs (written with a canonical URI prefix, with a synonym, unrecognised) each queried in both binding "
@@ -166,17 +166,31 @@ class C18(SimpleProperty):
         hs = [make_header(rng, supported, synonyms) for _ in range(30)]
         hs += [("", None), (None, None)]
         hs += [tuple(x) for x in case.get("extra_headers", [])]
-        out["headers"] = [{"text": t, "parts": p, "got": U.handle_header(t)} for t, p in hs]
+        def negotiate(t):
+            try:
+                return U.handle_header(t)
+            except Exception as e:  # noqa: BLE001   (a well-formed header must not make the parser raise)
+                return "raised " + type(e).__name__
+
+        out["headers"] = [{"text": t, "parts": p, "got": negotiate(t)} for t, p in hs]
         # the same negotiation through the transports: the Content-Type of the response to a query sent with that header
         q0 = sparql(case["uris"][0], "subject", "inside")
         via = []
         for t, _p in hs[:8]:
             if t is None:
                 continue
-            row = {"text": t, "flask_get": fl.get("/sparql", query_string={"query": q0}, headers={"accept": t}).headers.get("content-type"),
-                   "flask_post": fl.post("/sparql", data={"query": q0}, headers={"accept": t}).headers.get("content-type")}
+            def ctype(call):
+                try:
+                    r_ = call()
+                    return r_.headers.get("content-type") if r_.status_code == 200 else f"status {r_.status_code}"
+                except Exception as e:  # noqa: BLE001   (test clients re-raise server errors)
+                    return "raised " + type(e).__name__
+
+            row = {"text": t,
+                   "flask_get": ctype(lambda: fl.get("/sparql", query_string={"query": q0}, headers={"accept": t})),
+                   "flask_post": ctype(lambda: fl.post("/sparql", data={"query": q0}, headers={"accept": t}))}
             if fa is not None:
-                row["fastapi_get"] = fa.get("/sparql", params={"query": q0}, headers={"accept": t}).headers.get("content-type")
+                row["fastapi_get"] = ctype(lambda: fa.get("/sparql", params={"query": q0}, headers={"accept": t}))
             via.append(row)
         out["via_http"] = via
         out["tables"] = {"supported": supported, "synonyms": synonyms, "default": U.DEFAULT_CONTENT_TYPE}
@@ -206,6 +220,18 @@ class C18(SimpleProperty):
         for h, t in zip(impl["headers"], hresp["types"]):
             if h["got"] != uncps(t):
                 diffs.append({"step": 0, "op": f"handle_header({h['text']!r})", "implementation": h["got"], "model": uncps(t)})
+        # the header as *text*: split on ',' and ';', strip, find the q parameter, read its value (Model/Header.lean)
+        texts = [h["text"] for h in impl["headers"]]
+        chars = sorted({ord(ch) for t in texts if t for ch in t})
+        treq = {"k": "header_text", "space": [c for c in chars if chr(c).isspace()],
+                "synonyms": [[cps(k), cps(v)] for k, v in impl["tables"]["synonyms"].items()],
+                "supported": [cps(x) for x in impl["tables"]["supported"]], "default": cps(impl["tables"]["default"]),
+                "texts": [None if t is None else cps(t) for t in texts]}
+        tresp = common.run_driver([treq])[0]
+        for h, t in zip(impl["headers"], tresp["types"]):
+            m = t if isinstance(t, dict) else uncps(t)
+            if h["got"] != m:
+                diffs.append({"step": 0, "op": f"handle_header({h['text']!r}) [text-level model]", "implementation": h["got"], "model": m})
         return diffs
 
     def laws(self, case, impl):
